@@ -5,6 +5,7 @@ import (
 	"math/big"
 
 	"github.com/crate-crypto/go-ipa/bandersnatch/fr"
+	"github.com/crate-crypto/go-ipa/banderwagon"
 	"github.com/crate-crypto/go-ipa/common"
 	"github.com/crate-crypto/go-ipa/ipa"
 	"github.com/crate-crypto/go-ipa/zzverif/vsched"
@@ -126,6 +127,50 @@ func c04Units(ctx *core.Ctx) []core.Unit {
 			}
 		}})
 	}
+	us = append(us, core.Unit{Name: "several proofs stored in one shared buffer, verified in sequence (twice)", Run: func(ctx *core.Ctx, r *core.Result) {
+		needRef()
+		c := conf()
+		polys := polyAlphabet(ctx.Seed)
+		type item struct {
+			cm    banderwagon.Element
+			z, y  fr.Element
+			proof ipa.IPAProof
+		}
+		zs := []*big.Int{bi(3), bi(255), bi(256), new(big.Int).Sub(bigR, bi(1))}
+		items := make([]item, len(zs))
+		arena := make([]banderwagon.Element, 0, 16*len(zs)+8)
+		for i, z := range zs {
+			p := polys[10+i%4]
+			a := frsFromBig(p.V)
+			cm := c.Commit(a)
+			pr, err := ipa.CreateIPAProof(common.NewTranscript("ipa"), c, cm, a, frFromBig(z))
+			if err != nil {
+				panic(err)
+			}
+			// L_i and R_i live back to back in one allocation, so every slice has spare capacity that
+			// belongs to the next proof
+			lo := len(arena)
+			arena = append(arena, pr.L...)
+			arena = append(arena, pr.R...)
+			items[i] = item{cm, frFromBig(z), frFromBig(ref.Horner(ref.Interpolate(p.V), z)), ipa.IPAProof{L: arena[lo : lo+8], R: arena[lo+8 : lo+16], A_scalar: pr.A_scalar}}
+		}
+		for round := 0; round < 2; round++ {
+			for i, it := range items {
+				in := fmt.Sprintf("proof %d of %d stored in one buffer (L0|R0|L1|R1|...), verification round %d", i, len(items), round+1)
+				var ok bool
+				var err error
+				if !guard(r, "c04.panic", "ipa.CheckIPAProof", in, func() { ok, err = ipa.CheckIPAProof(common.NewTranscript("ipa"), c, it.cm, it.proof, it.z, it.y) }) {
+					continue
+				}
+				r.Evals++
+				r.Nontrivial++
+				if !ok || err != nil {
+					vio(r, "c04.verify", "ipa.CheckIPAProof", in, "accepted=true", fmt.Sprintf("accepted=%v err=%v", ok, err))
+				}
+			}
+		}
+		r.Sample(map[string]interface{}{"layout": "L0|R0|L1|R1|L2|R2|L3|R3 in one backing array", "rounds": 2})
+	}})
 	us = append(us, core.Unit{Name: "computeBVector boundary 250..260 and far points", Run: func(ctx *core.Ctx, r *core.Result) {
 		needRef()
 		c := conf()
